@@ -754,3 +754,380 @@ setitem.loop_havoc_ghost = True
 setitem.ghost_const = {"KDd0", "KDv0", "IDd0", "IDv0", "SDd0", "SDv0", "key0", "key1", "KDd1", "KDv1", "IDd1", "IDv1", "SDd1", "SDv1", "KDd2", "KDv2", "IDd2", "IDv2", "SDd2", "SDv2"}
 setitem.ghost_init_hook = _delitem_init
 setitem.globs = dict(setitem.globs, MultiKeyDict=sym.Module("MultiKeyDict", {"__delitem__": _delitem_callee}), reversed=_reversed, tuple=_tuple_builtin2)
+
+
+# ---------------------------------------------------------------------------
+# StrategyDict: a MultiKeyDict whose names are also instance attributes, with a default strategy.
+#   AT = the instance attributes named by keys (name -> value), hasdef / defval = the instance attribute `default`
+#   (the class attribute `default` - a function returning NotImplemented - is what `self.default` reads when the instance
+#   has none: CLASS_DEFAULT).  Assumptions: no strategy is named "default"; stored strategies are not that class function.
+CLASS_DEFAULT = z3.Const("CLASS_DEFAULT", V)
+
+
+def sd_obj(m, name):
+    kd, idd, sd, at = _zdict(m, K, T, "KD"), _zdict(m, V, T, "ID"), _zdict(m, T, V, "SD"), _zdict(m, K, V, "AT")
+    o = m.new_obj("StrategyDict", {"_keys_dict": kd, "_inv_dict": idd, "__storage__": sd, "__attrs__": at})
+    m.heap[(o.id, "hasdef")] = z3.Const("hasdef", BOOL)
+    m.heap[(o.id, "defval")] = z3.Const("defval", V)
+    return o
+
+
+def _is_sd(v):
+    return isinstance(v, Ref) and v.kind == "obj" and v.elem == "StrategyDict"
+
+
+def _sd_state(m, o):
+    return _dv(m, o, "_keys_dict") + _dv(m, o, "_inv_dict") + _dv(m, o, "__storage__") + _dv(m, o, "__attrs__") + (m.heap[(o.id, "hasdef")], m.heap[(o.id, "defval")])
+
+
+_SD_NAMES = ["KDd", "KDv", "IDd", "IDv", "SDd", "SDv", "ATd", "ATv", "HD", "DV"]
+
+
+def _sd_snapshot(m, o, g, sfx="0"):
+    for nm, val in zip(_SD_NAMES, _sd_state(m, o)):
+        g[nm + sfx] = val
+
+
+def _sd_havoc(m, o):
+    for f in ("_keys_dict", "_inv_dict", "__storage__", "__attrs__"):
+        r = m.heap[(o.id, f)]
+        m.heap[(r.id, "impl")].havoc(m, r)
+    m.heap[(o.id, "hasdef")] = m.fresh("hv_hasdef", BOOL)
+    m.heap[(o.id, "defval")] = m.fresh("hv_defval", V)
+
+
+def SDINV(m, o):
+    """every name is an attribute equal to the item; an instance default is one of the stored strategies"""
+    KDd, KDv, IDd, IDv, SDd, SDv, ATd, ATv, HD, DV = _sd_state(m, o)
+    k = _kk("i")
+    return z3.And(WFA(KDd, KDv, IDd, IDv, SDd, SDv),
+                  z3.ForAll([k], z3.Implies(KDd[k], z3.And(ATd[k], ATv[k] == SDv[KDv[k]]))),
+                  z3.Implies(HD, IDd[DV]),
+                  z3.Not(IDd[CLASS_DEFAULT]))
+
+
+@_spec
+def sdinv(m, node):
+    return SDINV(m, m.eval(node.args[0]))
+
+
+def _sd_getattr(m, base, attr):
+    if _is_sd(base):
+        if attr == "default":
+            return z3.If(m.heap[(base.id, "hasdef")], m.heap[(base.id, "defval")], CLASS_DEFAULT)
+        if attr == "key2keys":
+            def k2k(m_, args, kwargs):
+                kd = m_.heap[(base.id, "_keys_dict")]
+                return m_.heap[(kd.id, "impl")].index(m_, kd, args[0])     # postcondition of MultiKeyDict.key2keys (contract above)
+            k2k._pyvc_callee = True
+            return k2k
+    return NotImplemented
+
+
+def _sd_setattr_stmt(m, base, attr, v):
+    if _is_sd(base) and attr == "default":
+        m.heap[(base.id, "hasdef")] = z3.BoolVal(True)
+        m.heap[(base.id, "defval")] = v
+        return None
+    return NotImplemented
+
+
+def _sd_index(m, base, idx):
+    """self[x] inside StrategyDict methods: MultiKeyDict.__getitem__ (a key tuple goes straight to the storage)"""
+    if _is_sd(base):
+        if isinstance(idx, tuple):
+            idx = _toT(m, idx)
+        if sym.is_z3(idx) and idx.sort() == T:
+            sd = m.heap[(base.id, "__storage__")]
+            return m.heap[(sd.id, "impl")].index(m, sd, idx)
+        kd = m.heap[(base.id, "_keys_dict")]
+        t = m.heap[(kd.id, "impl")].index(m, kd, idx)
+        sd = m.heap[(base.id, "__storage__")]
+        return m.heap[(sd.id, "impl")].index(m, sd, t)
+    return NotImplemented
+
+
+def _b_hasattr(m, args, kw):
+    o, k = args
+    if _is_sd(o) and sym.is_z3(k) and k.sort() == K:
+        return _dv(m, o, "__attrs__")[0][k]
+    raise Unsupported("hasattr")
+
+
+def _b_getattr(m, args, kw):
+    o, k = args[0], args[1]
+    if _is_sd(o) and sym.is_z3(k) and k.sort() == K and len(args) == 2:
+        at = m.heap[(o.id, "__attrs__")]
+        if m.branch(z3.Not(m.heap[(at.id, "dom")][k])):
+            raise PyRaise("AttributeError")
+        return m.heap[(at.id, "val")][k]
+    raise Unsupported("getattr")
+
+
+def _b_setattr(m, args, kw):
+    o, k, v = args
+    if _is_sd(o) and sym.is_z3(k) and k.sort() == K:
+        at = m.heap[(o.id, "__attrs__")]
+        m.heap[(at.id, "impl")].setitem(m, at, k, v)
+        return None
+    raise Unsupported("setattr")
+
+
+class _Vars:
+    def __init__(self, o):
+        self.o = o
+
+
+def _b_vars(m, args, kw):
+    (o,) = args
+    if _is_sd(o):
+        return _Vars(o)
+    raise Unsupported("vars")
+
+
+def _sd_compare(m, op, a, b):
+    if isinstance(op, (ast.In, ast.NotIn)) and isinstance(b, _Vars) and a == "default":
+        r = m.heap[(b.o.id, "hasdef")]
+        return r if isinstance(op, ast.In) else z3.Not(r)
+    return NotImplemented
+
+
+def _super_delattr(m, self, args, kwargs):
+    """object.__delattr__: removes an instance attribute, AttributeError when there is none"""
+    (k,) = args
+    if isinstance(k, str) and k == "default":
+        if m.branch(z3.Not(m.heap[(self.id, "hasdef")])):
+            raise PyRaise("AttributeError")
+        m.heap[(self.id, "hasdef")] = z3.BoolVal(False)
+        return None
+    at = m.heap[(self.id, "__attrs__")]
+    if m.branch(z3.Not(m.heap[(at.id, "dom")][k])):
+        raise PyRaise("AttributeError")
+    m.heap[(at.id, "dom")] = z3.Store(m.heap[(at.id, "dom")], k, z3.BoolVal(False))
+    return None
+
+
+for _f in (_b_hasattr, _b_getattr, _b_setattr, _b_vars):
+    _f._pyvc_callee = True
+
+
+def _via_contract(contract, mode_name, names, label):
+    """callee used through exactly the clauses of its contract: requires obliged, raises-conditions branched, state havocked,
+    ensures assumed (with the pre-call state as the contract's ghost snapshot)"""
+    def callee(m, self, args, kwargs):
+        mode = contract.modes[mode_name]
+        bind = dict(zip(names, (self,) + tuple(args)))
+        saved_ghost, saved_locals, saved_params = dict(m.ghost), m.locals, m.params0
+        m.locals, m.params0 = dict(bind), dict(bind)
+        try:
+            for i, text in enumerate(mode.requires):
+                m.oblige("callee/%s/requires/%d" % (label, i), m.spec(text))
+            whole = contract.name.startswith("StrategyDict")      # a MultiKeyDict method touches the three maps only
+            _sd_snapshot(m, self, m.ghost) if whole else _snapshot_into(m, self, m.ghost)
+            for exc, cond in {**contract.raises, **mode.raises}.items():
+                if cond is not None and m.branch(sym.to_bool(m.spec(cond))):
+                    raise PyRaise(exc)
+            if whole:
+                _sd_havoc(m, self)
+            else:
+                for f in ("_keys_dict", "_inv_dict", "__storage__"):
+                    r = m.heap[(self.id, f)]
+                    m.heap[(r.id, "impl")].havoc(m, r)
+            for lbl, text in contract.ensures + mode.ensures:
+                m.assume(m.spec(text, {"result": None}))
+        finally:
+            m.locals, m.params0 = saved_locals, saved_params
+            for k_ in list(m.ghost):
+                if k_ not in saved_ghost:
+                    del m.ghost[k_]
+            m.ghost.update(saved_ghost)
+        return None
+    callee._pyvc_callee = True
+    return callee
+
+
+def _og(m, nm):
+    return m.ghost[nm + "0"]
+
+
+# ---- StrategyDict.__delitem__
+@_spec
+def SD_DEL_ATTRS(m, node):
+    """the attribute of the deleted name goes (it equalled the item), every other attribute stays"""
+    o = m.locals["self"]
+    key = m.locals["key"] if "key" in m.locals else m.params0["key"]
+    ATd, ATv = _dv(m, o, "__attrs__")
+    k = _kk("t")
+    return z3.ForAll([k], z3.And(ATd[k] == z3.And(_og(m, "ATd")[k], k != key), z3.Implies(ATd[k], ATv[k] == _og(m, "ATv")[k])))
+
+
+@_spec
+def SD_DEL_DEFAULT(m, node):
+    """the default goes exactly when it was the value of the deleted name and that was its last name"""
+    o = m.locals["self"]
+    key = m.params0["key"]
+    HD, DV = m.heap[(o.id, "hasdef")], m.heap[(o.id, "defval")]
+    HD0, DV0 = _og(m, "HD"), _og(m, "DV")
+    oldkeys, oldval = _og(m, "KDv")[key], _og(m, "SDv")[_og(m, "KDv")[key]]
+    lost = z3.And(HD0, TLEN(oldkeys) == 1, oldval == DV0)
+    return z3.And(HD == z3.And(HD0, z3.Not(lost)), z3.Implies(HD, DV == DV0))
+
+
+_ENV.update(sdinv=sdinv, SD_DEL_ATTRS=SD_DEL_ATTRS, SD_DEL_DEFAULT=SD_DEL_DEFAULT)
+
+
+def _sd_mk(c):
+    _mk(c)
+    c.index_hook = _sd_index
+    c.getattr_hook = _sd_getattr
+    c.setattr_hook = _sd_setattr_stmt
+    c.compare_hook = _sd_compare
+    c.iter_hook = _set_iter
+    c.isinstance_hook = _set_isinstance
+    c.callees = {("super:StrategyDict", "__delattr__"): _super_delattr}
+    c.globs = dict(c.globs, StrategyDict="StrategyDict", hasattr=_b_hasattr, getattr=_b_getattr, setattr=_b_setattr, vars=_b_vars, tuple=_tuple_builtin2)
+    c.ghost_init_hook = lambda m: _sd_snapshot(m, m.locals["self"], m.ghost)
+    c.ghost_const = set(n + "0" for n in _SD_NAMES)
+    c.assumptions = c.assumptions + ["instance attributes named by keys are a map name -> value; no strategy is named 'default'; the class attribute `default` is not stored as a strategy",
+                                     "MultiKeyDict methods called through super() are used through exactly the clauses proved for them above"]
+    return c
+
+
+sd_delitem = _sd_mk(Contract(
+    name="StrategyDict.__delitem__", qual="audiolazy/lazy_core.py::StrategyDict.__delitem__", kind="function", props=["C15"],
+    modes={"any": Mode(params=dict(self=sd_obj, key=_key), requires=["sdinv(self)"], raises={"KeyError": "not OLDHAS(key)"})},
+    ensures=[(l, t) for l, t in delitem.ensures] + [
+        ("S:the-attribute-of-the-deleted-name-goes,others-stay", "SD_DEL_ATTRS()"),
+        ("S:the-default-goes-exactly-when-it-loses-its-last-name", "SD_DEL_DEFAULT()"),
+        ("S:names-are-attributes-equal-to-the-items;default-is-a-stored-strategy", "sdinv(self)")],
+    replay="oracles.bounded_adapter:c15",
+    stated=["deleting a name of a StrategyDict deletes the item as in a MultiKeyDict, removes the attribute of that name and removes the default exactly when the default loses its last name"]))
+sd_delitem.callees[("super:StrategyDict", "__delitem__")] = _via_contract(delitem, "any", ["self", "key"], "MultiKeyDict.__delitem__")
+
+
+# ---- StrategyDict.__setitem__ (one name) and __delattr__
+def _sd_delitem_hook(m, base, key):
+    """`del self[k]` inside a StrategyDict method = StrategyDict.__delitem__ through its contract"""
+    if _is_sd(base):
+        _via_contract(sd_delitem, "any", ["self", "key"], "StrategyDict.__delitem__")(m, base, (key,), {})
+        return None
+    return NotImplemented
+
+
+def _pytuple_iter(m, v):
+    """a Python tuple display of keys: an iterator of known length (the loop is unrolled)"""
+    if isinstance(v, tuple) and v and all(sym.is_z3(x) and x.sort() == K for x in v):
+        arr = m.fresh("tuple_items", z3.ArraySort(INT, K))
+        for i, x in enumerate(v):
+            arr = z3.Store(arr, i, x)
+        return m.new_iter(KEYP, "tupledisplay", finite=True, arr=arr, length=z3.IntVal(len(v)))
+    return _set_iter(m, v)
+
+
+def _mkd_setitem_super(m, self, args, kwargs):
+    """super(StrategyDict, self).__setitem__(keys, value) with keys == (k,): MultiKeyDict.__setitem__ through its contract (single-key mode:
+    `(k,)` is what that method makes of a single key, and a 1-tuple given directly takes the same path from there on)"""
+    keys, value = args
+    if not (isinstance(keys, tuple) and len(keys) == 1):
+        raise Unsupported("super().__setitem__ with other than a 1-tuple display")
+    return _via_contract(setitem, "single-key", ["self", "key", "value"], "MultiKeyDict.__setitem__")(m, self, (keys[0], value), {})
+
+
+@_spec
+def SD_SET_ATTRS(m, node):
+    o = m.locals["self"]
+    key, value = m.params0["key"], m.params0["value"]
+    ATd, ATv = _dv(m, o, "__attrs__")
+    k = _kk("t")
+    return z3.And(ATd[key], ATv[key] == value,
+                  z3.ForAll([k], z3.Implies(k != key, z3.And(ATd[k] == _og(m, "ATd")[k], z3.Implies(ATd[k], ATv[k] == _og(m, "ATv")[k])))))
+
+
+@_spec
+def SD_SET_DEFAULT(m, node):
+    """the default stays unless it was lost by this assignment (its last name re-assigned) or there was none: then it is the value stored now"""
+    o = m.locals["self"]
+    key, value = m.params0["key"], m.params0["value"]
+    HD, DV = m.heap[(o.id, "hasdef")], m.heap[(o.id, "defval")]
+    HD0, DV0 = _og(m, "HD"), _og(m, "DV")
+    KDd0, KDv0, SDv0 = _og(m, "KDd"), _og(m, "KDv"), _og(m, "SDv")
+    lost = z3.And(HD0, KDd0[key], TLEN(KDv0[key]) == 1, SDv0[KDv0[key]] == DV0)
+    keep = z3.And(HD0, z3.Not(lost))
+    return z3.And(HD, DV == z3.If(keep, DV0, value))
+
+
+_ENV.update(SD_SET_ATTRS=SD_SET_ATTRS, SD_SET_DEFAULT=SD_SET_DEFAULT)
+sd_setitem = _sd_mk(Contract(
+    name="StrategyDict.__setitem__", qual="audiolazy/lazy_core.py::StrategyDict.__setitem__", kind="function", props=["C15"],
+    modes={"one-name": Mode(params=dict(self=sd_obj, key=_key, value=lambda m, n: z3.Const("value", V)),
+                            requires=["sdinv(self)", "value != CLASS_DEFAULT_V()"])},
+    ensures=[("S:d[k]-is-the-last-value-assigned-to-k;other-keys-keep-their-values", "SET_MAP()"),
+             ("S:each-value-owns-exactly-one-tuple-listing-exactly-its-keys", "SET_GROUPS()"),
+             ("S:the-name-is-an-attribute-equal-to-the-item;other-attributes-stay", "SD_SET_ATTRS()"),
+             ("S:default-is-the-first-strategy-stored(re-chosen-after-the-default-lost-all-its-names)", "SD_SET_DEFAULT()"),
+             ("S:names-are-attributes-equal-to-the-items;default-is-a-stored-strategy", "sdinv(self)")],
+    replay="oracles.bounded_adapter:c15",
+    stated=["StrategyDict[name] = f: the name maps to f and is an attribute equal to f, nothing else changes its value or attribute, and the default is kept "
+            "unless it just lost its last name or there was none - then f becomes the default"]))
+sd_setitem.delitem_hook = _sd_delitem_hook
+sd_setitem.iter_hook = _pytuple_iter
+sd_setitem.callees[("super:StrategyDict", "__setitem__")] = _mkd_setitem_super
+
+
+@_spec
+def CLASS_DEFAULT_V(m, node):
+    return CLASS_DEFAULT
+
+
+_ENV.update(CLASS_DEFAULT_V=CLASS_DEFAULT_V)
+
+
+# ---- StrategyDict.__delattr__(attr): a name that is a strategy -> as `del self[attr]`; any other attribute -> plain delattr
+@_spec
+def SD_DELATTR_PLAIN(m, node):
+    """not a strategy name: only that instance attribute goes"""
+    o = m.locals["self"]
+    key = m.params0["attr"]
+    KDd, KDv, IDd, IDv, SDd, SDv, ATd, ATv, HD, DV = _sd_state(m, o)
+    k = _kk("t")
+    same_maps = z3.And(KDd == _og(m, "KDd"), KDv == _og(m, "KDv"), IDd == _og(m, "IDd"), IDv == _og(m, "IDv"), SDd == _og(m, "SDd"), SDv == _og(m, "SDv"),
+                       HD == _og(m, "HD"), DV == _og(m, "DV"))
+    return z3.Implies(z3.Not(_og(m, "KDd")[key]),
+                      z3.And(same_maps, z3.ForAll([k], z3.And(ATd[k] == z3.And(_og(m, "ATd")[k], k != key), z3.Implies(ATd[k], ATv[k] == _og(m, "ATv")[k])))))
+
+
+@_spec
+def SD_DELATTR_NAME(m, node):
+    """a strategy name: exactly the effect of deleting the item (clauses of StrategyDict.__delitem__)"""
+    o = m.locals["self"]
+    key = m.params0["attr"]
+    saved = m.locals
+    m.locals = {"self": o, "key": key}
+    p0 = m.params0
+    m.params0 = {"self": o, "key": key}
+    try:
+        post = z3.And(*[sym.to_bool(m.spec(t)) for l, t in sd_delitem.ensures])
+    finally:
+        m.locals, m.params0 = saved, p0
+    return z3.Implies(_og(m, "KDd")[key], post)
+
+
+_ENV.update(SD_DELATTR_PLAIN=SD_DELATTR_PLAIN, SD_DELATTR_NAME=SD_DELATTR_NAME)
+sd_delattr = _sd_mk(Contract(
+    name="StrategyDict.__delattr__", qual="audiolazy/lazy_core.py::StrategyDict.__delattr__", kind="function", props=["C15"],
+    modes={"any": Mode(params=dict(self=sd_obj, attr=_key), requires=["sdinv(self)"],
+                       raises={"AttributeError": "not OLDHAS(attr) and not OLDATTR(attr)"})},
+    ensures=[("S:deleting-the-attribute-of-a-strategy-name-deletes-the-item-too", "SD_DELATTR_NAME()"),
+             ("S:any-other-attribute-is-simply-removed", "SD_DELATTR_PLAIN()"),
+             ("S:names-are-attributes-equal-to-the-items;default-is-a-stored-strategy", "sdinv(self)")],
+    replay="oracles.bounded_adapter:c15",
+    stated=["del sd.name for a strategy name removes item and attribute together (as del sd[name]); for any other attribute it is a plain delattr (AttributeError if absent)"]))
+sd_delattr.delitem_hook = _sd_delitem_hook
+
+
+@_spec
+def OLDATTR(m, node):
+    return _og(m, "ATd")[m.eval(node.args[0])]
+
+
+_ENV.update(OLDATTR=OLDATTR)
